@@ -8,7 +8,7 @@ for d in sorted(glob.glob(os.path.join(V, "seeded", "*", "result.json"))):
     v = "; ".join("%s: %s" % (k, x["verdict"]) for k, x in r.get("checks", {}).items())
     if "after_strengthening" in r: v += " → after strengthening: quick caught"
     if "history" in r: v += " (first run missed; after generator widening: quick caught)"
-    if "cross_check" in r: v += " (a C05 defect: C05 quick caught)"
+    if "cross_check" in r: v += " (violates another property, whose quick tier catches it: see result.json)"
     rows.append("| `%s` | %s | %s |" % (name, (r.get("summary") or "")[:110].replace("|", "/"), v))
 tab = "<!-- SEEDED-TABLE-BEGIN -->\n%d seeded changes, all confirmed (demo passes unchanged / fails with the change; builds; existing suite passes).\n\n| seeded change | where / what (abridged) | result |\n|---|---|---|\n%s\n<!-- SEEDED-TABLE-END -->" % (len(rows), "\n".join(rows))
 p = os.path.join(V, "DESIGN.md"); s = open(p).read()
